@@ -1,6 +1,7 @@
 """C17 - is_closed() is sound and composites tear down late additions."""
 import itertools
 from common import *
+import xcheck
 import gen
 import tgen
 import timedcheck
@@ -58,7 +59,8 @@ def run(tier, seed, replay=None):
     if not build_stage(rep):
         return rep.finish()
     cases = load_replay_case(replay) if replay else alg_cases(tier, rng) + timed_cases(tier, rng)
-    correspond(rep, "C17", cases, "C17_closed_sound / C17_algebra_closed_sound / C17_late_additions / C17_closed_stable")
+    res = correspond(rep, "C17", cases, "C17_closed_sound / C17_algebra_closed_sound / C17_late_additions / C17_closed_stable")
+    xcheck.cross_check(rep, "C17", cases, res, 40 if tier == "quick" else 400)
     c = rep.coverage
     hist = {}
     for _, _, t in cases:
